@@ -141,7 +141,16 @@ def sexpr(node):
     if isinstance(node, ast.BoolOp):
         # Python flattens `a and b and c`; rebuild as left-nested for comparison is wrong:
         # keep the flat n-ary form and let the producer of the expectation flatten too.
-        return "(%s %s)" % (type(node.op).__name__, " ".join(sexpr(v) for v in node.values))
+        parts = []
+
+        def flat(n):
+            if isinstance(n, ast.BoolOp) and type(n.op) is type(node.op):
+                for v in n.values:
+                    flat(v)
+            else:
+                parts.append(sexpr(n))
+        flat(node)
+        return "(%s %s)" % (type(node.op).__name__, " ".join(parts))
     if isinstance(node, ast.Compare):
         parts = [sexpr(node.left)]
         for op, c in zip(node.ops, node.comparators):
